@@ -256,8 +256,16 @@ def rule_hof_copy(ctx: Ctx) -> None:
         raise AnalysisError("update_hof: no self.hof.insert call")
     for c in ins:
         t = c.args[1] if len(c.args) > 1 else None
-        if isinstance(t, ast.Tuple) and len(t.elts) == 2 and _is_copy(t.elts[1]):
+        from .shapes import _block_value
+        stored = _block_value(c, t.elts[1]) if isinstance(t, ast.Tuple) and len(t.elts) == 2 else None
+        if stored is not None and _is_copy(stored):
             ctx.ok("effect.hof-copy", m, c)
+        elif isinstance(stored, ast.IfExp) and (_is_copy(stored.body) != _is_copy(stored.orelse)):
+            ctx.fail("effect.hof-copy", m, c,
+                     f"`{short(c)}` stores `{short(stored, 60)}`: under `{short(stored.test)}` being {'false' if _is_copy(stored.body) else 'true'} the hall of fame holds the "
+                     f"population's own circuit object; whether the population is rebuilt from copies afterwards is decided elsewhere (tournament selection returns the "
+                     f"population itself for k = 0), and a circuit mutated in place in a later generation no longer matches its stored score",
+                     func="RandomSearchSolver.update_hof", construct="update_hof: circuit copied only conditionally")
         else:
             ctx.fail("effect.hof-copy", m, c,
                      f"`{short(c)}` stores the population's own circuit object in the hall of fame; the population is mutated in place "
